@@ -92,6 +92,15 @@ def perturbations(T):
         for n2 in (num - 1, num + 1, 30 if num == 31 else None, 31 if num == 30 else None):
             if n2 is not None and n2 >= 0 and n2 != num:
                 alts.add((cls, n2))
+        # both at once, by offsets at which a (class << k) + number key would collide (k = 30, 32, 38 ... for the class values
+        # 0x40 / 0x80 / 0xC0): still another tag
+        order = ['U', 'A', 'C', 'P']
+        for c in CLASSES:
+            if c != cls:
+                for k in (30, 32, 38):
+                    n2 = num + (order.index(cls) - order.index(c)) * (0x40 << k)
+                    if n2 >= 0:
+                        alts.add((c, n2))
         for a in sorted(alts):
             st2 = list(stack)
             st2[i] = a
